@@ -39,6 +39,7 @@ RULE += (' Also: frozen hosts (__setattr__ raises).')
 RULE += (' Also: probe locks offer locked().')
 RULE += (" Also: deletion by replacing the instance's __dict__.")
 RULE += (' Also: a subclass overriding the cached property and awaiting super().p.')
+RULE += (' Also: one property object that is an attribute (same name) of two unrelated classes.')
 RULE += (' Also: instances of a subclass that merely inherits the property (placeholders awaited after a deletion included).')
 RULE += (' Also: getters failing with a BaseException that is no Exception.')
 RULE += (' Also: host classes with customised attribute reads (__getattribute__ handing out stand-ins).')
@@ -80,7 +81,7 @@ def cases(tier, seed, shard, nshards):
         yield {"kind": "seq", "ops": [rng.choice(SEQ_OPS) for _ in range(rng.randint(6, 15))], "lock": rng.random() < 0.5,
                # (a host class whose attribute READS are customised: the property keeps reading its own state from
                # the instance's __dict__, not through the class's attribute access)
-               "traced_reads": rng.random() < 0.2, "slotted_base": rng.random() < 0.25, "inherited": rng.random() < 0.3,
+               "traced_reads": rng.random() < 0.2, "slotted_base": rng.random() < 0.25, "inherited": rng.random() < 0.3, "shared_prop": rng.random() < 0.2,
                "exc": rng.choice(PLANNED_NAMES), "falsy": rng.choice([None, None, "none", "zero", "false", "empty", "opaque", "awaitable"])}
     n = max(1, N_SCEN[tier] // nshards)
     for i in range(n):
@@ -98,7 +99,7 @@ def cases(tier, seed, shard, nshards):
                "lock_susp": rng.choice([[0, 0], [0, 0], [1, 0], [0, 1]]),
                "runs": DFS_LIMIT[tier] if mode == "dfs" else RANDOM_RUNS[tier], "seed": rng.randrange(1 << 30),
                "exc": rng.choice(PLANNED_NAMES), "global_lock": rng.random() < 0.3, "traced_reads": rng.random() < 0.15,
-               "slotted_base": rng.random() < 0.2, "inherited": rng.random() < 0.3}
+               "slotted_base": rng.random() < 0.2, "inherited": rng.random() < 0.3, "shared_prop": rng.random() < 0.2}
 
 
 from ..tools import Opaque, AwaitablePayload  # noqa: E402
@@ -169,6 +170,9 @@ def run_seq(case, stats):
         # as functools.cached_property does, and never goes through the class's attribute assignment
         raise AttributeError(f"cannot assign to field {name!r}")
 
+    if case.get("shared_prop"):
+        # the very same property object is ALSO an attribute (same name) of an unrelated class, bound there first
+        type("Elsewhere", (), {"p": prop})
     K = type("K", (_SlottedBase,) if case.get("slotted_base") else (), {"p": prop, "__init__": lambda self, tag: self.__dict__.__setitem__("tag", tag),
                        "__bool__": lambda self: False, "__len__": lambda self: 0, "__setattr__": _frozen,
                        **({"__getattribute__": _traced_reads} if case.get("traced_reads") else {})})
@@ -361,6 +365,8 @@ def execute(case, choose, cancel_at=None):
     def _frozen(self, name, value):
         raise AttributeError(f"cannot assign to field {name!r}")
 
+    if case.get("shared_prop"):
+        type("Elsewhere", (), {"p": prop})
     K = type("K", (_SlottedBase,) if case.get("slotted_base") else (), {"p": prop, "__bool__": lambda self: False, "__len__": lambda self: 0, "__setattr__": _frozen,
                        **({"__getattribute__": _traced_reads} if case.get("traced_reads") else {})})
     prop.__set_name__(K, "p")
